@@ -6,6 +6,10 @@ Value model
   __mmask8 / __mmask16                       -> BitVec 8 / BitVec 16
   T* / T[] (Element, uint64_t)               -> Region  (Nat -> BitVec 64), functional update
   non-const reference / pointer parameters   -> returned in a result tuple
+  mpz mode only (module flag "mpz", section "mpz mode" below; DESIGN.CONV.md):
+  mpz_class / gmpxx expression templates     -> Int   (`%` = Int.tmod; get_ui / get_si / get_str, string constructor: Model/TrMpz.lean)
+  std::string                                -> String
+  int64_t / int32_t                          -> BitVec 64 / BitVec 32 (two's complement)
 Control
   straight-line code, if/else joined on the assigned variables, constant-trip `for` loops
   (unrolled up to UNROLL_MAX iterations, otherwise `Loop.range` folds), GNU inline asm through
@@ -40,6 +44,12 @@ class NeedPartial(Unsupported):
 
 # lower bounds of the Nat-valued loop variables currently in scope (ext mode): lets `i - 1` be emitted for a loop from 1
 NAT_LO = {}
+
+# "mpz mode" (module flag "mpzc", set by gen.py around the translation of one module): GMP's `mpz_class` values are Lean
+# `Int`s, `std::string` is `String`, `int64_t` / `int32_t` are two's complement `BitVec 64` / `BitVec 32` (categories
+# mpz, str, s64, s32; run-time support Model/TrMpz.lean).  Off for every other module: their output is unchanged.
+MPZ_MODE = False
+MPZ_CATS = ("mpzc", "str", "s64", "s32")
 
 
 class Const:
@@ -165,6 +175,11 @@ def _classify(t):
         isconst = base.startswith("const ") or base.endswith(" const")
         return ("ptr", (_classify(base)[0], isconst))
     b = strip_cv(t0)
+    if MPZ_MODE:
+        if b == "mpz_class" or b.startswith("__gmp_expr<"):
+            return ("mpzc", None)
+        if b in ("std::string", "string", "std::basic_string<char>") or b.startswith("basic_string<char,"):
+            return ("str", None)
     if b in U64_NAMES:
         return ("u64", None)
     if b in INT_NAMES:
@@ -186,11 +201,12 @@ def _classify(t):
 
 LEAN_TY = {"u64": "BitVec 64", "bool": "Bool", "v4": "V4", "v8": "V8", "m8": "BitVec 8",
            "m16": "BitVec 16", "ptr": "Region", "arr": "Region", "int": "Int",
-           "vr4": "VRegion4", "vr8": "VRegion8", "u32": "BitVec 32", "nat": "Nat"}
+           "vr4": "VRegion4", "vr8": "VRegion8", "u32": "BitVec 32", "nat": "Nat",
+           "mpzc": "Int", "str": "String", "s64": "BitVec 64", "s32": "BitVec 32"}
 
 ZERO_OF = {"u64": "0#64", "bool": "false", "v4": "V4.zero", "v8": "V8.zero", "m8": "0#8", "m16": "0#16",
            "ptr": "Region.zero", "arr": "Region.zero", "int": "(0 : Int)", "vr4": "VRegion4.zero", "vr8": "VRegion8.zero",
-           "u32": "0#32"}
+           "u32": "0#32", "mpzc": "(0 : Int)", "str": "\"\"", "s64": "0#64", "s32": "0#32"}
 
 
 def type_code(t, refined=False):
@@ -217,6 +233,10 @@ def type_code(t, refined=False):
         return "i"
     if c == "bool":
         return "b"
+    if c == "mpzc":
+        return "Z" if const else "z"
+    if c == "str":
+        return "S" if const else "s"
     return "x"
 
 
@@ -371,6 +391,8 @@ class Translator:
             try:
                 if self.heap_mode is not None and self.heap_mode.wants(def_decl):
                     raise Unsupported(def_decl, "heap mode")
+                if MPZ_MODE and self.ext:
+                    raise Unsupported(def_decl, "mpz mode")      # straight to the extended translation
                 info = FnCtx(self, def_decl).translate(alias=alias)
             except Unsupported as e0:
                 if self.heap_mode is not None:
@@ -526,6 +548,10 @@ class FnCtx:
     def ex(self, n):
         n = self.skip(n)
         k = n.get("kind")
+        if MPZ_MODE and self.ext:
+            r = self.ex_mpz(n)
+            if r is not NotImplemented:
+                return r
         if k == "IntegerLiteral":
             return Const(int(n["value"]))
         if k == "CXXBoolLiteralExpr":
@@ -727,6 +753,10 @@ class FnCtx:
             raise Unsupported(n, "assignment inside expression")
         if op == ",":
             raise Unsupported(n, "comma")
+        if MPZ_MODE and self.ext:
+            r = self.binop_signed(n, op, a, b)
+            if r is not NotImplemented:
+                return r
         cat = classify(qt(n))[0]
         ca = classify(qt(a))[0]
         if ca == "ptr" or classify(qt(b))[0] == "ptr":
@@ -812,6 +842,10 @@ class FnCtx:
         op = name[len("operator"):]
         if op == "=":
             raise Unsupported(n, "operator= in expression")
+        if MPZ_MODE and self.ext:
+            r = self.op_call_mpz(n, op, args)
+            if r is not NotImplemented:
+                return r
         key = (op, len(args))
         if key not in OPERATOR_MAP:
             raise Unsupported(n, "operator " + op)
@@ -852,7 +886,11 @@ class FnCtx:
     def arg_in(self, p, a):
         if p["cat"] in ("ptr", "arr", "vr4", "vr8"):
             return self.region(a)
+        if p["cat"] == "mpzc":
+            return self.to_mpz(a)
         v = self.ex(a)
+        if p["cat"] in ("s64", "s32"):
+            return self.as_cat(v, p["cat"])
         if p["cat"] == "u64":
             return self.as_u64(v)
         if p["cat"] == "int":
@@ -1077,6 +1115,8 @@ class FnCtx:
                 raise Unsupported(lhs, "assignment to a pointer / loop index")
             if e["cat"] == "u64":
                 rhs_term = self.as_u64(rhs_term)
+            elif e["cat"] in ("s64", "s32", "mpzc"):
+                rhs_term = self.as_cat(rhs_term, e["cat"])
             self.emit("let %s := %s" % (e["name"], self.show(rhs_term)))
             return
         if k == "MemberExpr" and l0.get("name") == "fe":
@@ -1120,7 +1160,7 @@ class FnCtx:
             op = n["opcode"]
             if op == "=":
                 rhs = n["inner"][1]
-                self.assign(n["inner"][0], self.ex_hoist(rhs))
+                self.assign(n["inner"][0], self.rhs_for(n["inner"][0], rhs))
                 return None
             if op in ("+=", "-=", "*=", "&=", "|=", "^=", "<<=", ">>="):
                 raise Unsupported(n, "compound assignment (BinaryOperator)")
@@ -1141,7 +1181,7 @@ class FnCtx:
         if k == "CXXOperatorCallExpr":
             rd = self.callee(n)
             if rd["name"] == "operator=":
-                self.assign(n["inner"][1], self.ex_hoist(n["inner"][2]))
+                self.assign(n["inner"][1], self.rhs_for(n["inner"][1], n["inner"][2]))
                 return None
             raise Unsupported(n, "operator call statement")
         if k == "CallExpr":
@@ -1213,6 +1253,8 @@ class FnCtx:
         if v.get("kind") != "VarDecl":
             raise Unsupported(v, "declaration kind")
         cat, ex = classify(v["type"]["qualType"])
+        if MPZ_MODE and self.ext:
+            cat = self.refine_signed(cat, v["type"]["qualType"])
         name = lean_ident(v["name"])
         if self.ext and cat == "other" and re.search(r"\[[^\]]*[A-Za-z_][^\]]*\]\s*$", v["type"]["qualType"]) and \
                 "Element" in v["type"]["qualType"]:
@@ -1249,9 +1291,14 @@ class FnCtx:
         if cat == "ptr":
             self.emit("let %s : Region := %s" % (name, self.region(init[0])))
             return
-        val = self.ex_hoist(init[0])
+        if cat == "mpzc":
+            val = self.to_mpz(init[0])
+        else:
+            val = self.ex_hoist(init[0])
         if cat == "u64":
             val = self.as_u64(val)
+        elif cat in ("s64", "s32"):
+            val = self.as_cat(val, cat)
         self.emit("let %s : %s := %s" % (name, LEAN_TY[cat], self.show(val)))
 
     def init_list(self, n):
@@ -1775,9 +1822,11 @@ class FnCtx:
                 if self.ret_cat is None:
                     self.stmt(inner[0])
                 else:
-                    ret = self.ex_hoist(inner[0])
+                    ret = self.to_mpz(inner[0]) if self.ret_cat == "mpzc" else self.ex_hoist(inner[0])
                     if self.ret_cat == "u64":
                         ret = self.as_u64(ret)
+                    elif self.ret_cat in ("s64", "s32"):
+                        ret = self.as_cat(ret, self.ret_cat)
                     ret = self.show(ret)
             self.emit_fn_terminal(ret)
             return
@@ -2037,6 +2086,176 @@ class FnCtx:
                 return True
         return False
 
+    # ================================================================ mpz mode
+    # GMP's C++ interface (gmpxx.h) and the signed fixed-width integers of the conversions (goldilocks_base_field_tools.hpp).
+    #   mpz_class / any `__gmp_expr<...>` expression template            -> Int   (exact integers)
+    #   mpz_class(uint64_t) / (int) / (long) / (const mpz-expression &)   -> Mpz.ofU64 / the integer / BitVec.toInt / the value
+    #   mpz_class(std::string, int radix)                                 -> Mpz.ofString (extern = Model.parseInt); the function
+    #                                                                        becomes partial, `none` = std::invalid_argument thrown
+    #   a % b (b a non-zero constant)  -> Int.tmod (GMP: mpz_tdiv_r / mpz_tdiv_r_ui: truncated, sign of the dividend)
+    #   a + b, a - b, a * b, -a, comparisons -> the Int operations
+    #   x.get_ui() / x.get_si() / x.get_str(radix) -> Mpz.getUi / Mpz.getSi / Mpz.getStr (Model/TrMpz.lean)
+    #   int64_t / long -> BitVec 64 (s64), int32_t -> BitVec 32 (s32), two's complement; comparisons through BitVec.toInt,
+    #   conversions to wider types by sign extension, to int32_t by truncation, unary minus wraps (overflow is UB in C++)
+    #   std::string -> String (parameters, locals, results; only whole-value assignment)
+    def refine_signed(self, cat, t):
+        if cat == "int":
+            b = strip_cv(t.strip().rstrip("&").strip())
+            if b in ("int64_t", "long", "long long", "__int64_t"):
+                return "s64"
+            if b in ("int32_t", "__int32_t"):
+                return "s32"
+        return cat
+
+    def as_cat(self, v, cat):
+        """format a compile-time constant for a variable of the given category"""
+        if isinstance(v, Const):
+            if cat in ("u64", "s64"):
+                return "%d#64" % (v.v % (1 << 64))
+            if cat == "s32":
+                return "%d#32" % (v.v % (1 << 32))
+            if cat in ("mpzc", "int"):
+                return "(%d : Int)" % v.v
+        return v
+
+    def scat(self, n):
+        """s64 / s32 when the expression is a signed fixed-width value kept as a bit pattern, else None"""
+        n = self.skip(n)
+        k = n.get("kind")
+        if k == "DeclRefExpr":
+            e = self.env.get(n.get("referencedDecl", {}).get("id"))
+            return e["cat"] if e and e["cat"] in ("s64", "s32") else None
+        if k == "CXXMemberCallExpr":
+            me = n["inner"][0]
+            return "s64" if me.get("kind") == "MemberExpr" and me.get("name") == "get_si" else None
+        if k == "UnaryOperator" and n.get("opcode") in ("-", "+"):
+            return self.scat(n["inner"][0])
+        if k in ("ImplicitCastExpr", "CStyleCastExpr", "CXXStaticCastExpr", "CXXFunctionalCastExpr") and n.get("inner"):
+            ck = n.get("castKind")
+            if ck in ("NoOp", "LValueToRValue"):
+                return self.scat(n["inner"][0])
+            if ck == "IntegralCast":
+                s = self.scat(n["inner"][0])
+                d = strip_cv(qt(n))
+                if d in ("long", "long long") and (s or classify(qt(n["inner"][0]))[0] == "u64"):
+                    return "s64"
+                if d == "int" and s:
+                    return "s32"
+        return None
+
+    def vcat(self, n):
+        n = self.skip(n)
+        return self.scat(n) or classify(qt(n))[0]
+
+    def to_mpz(self, n):
+        """an expression converted to mpz_class (constructor argument, operand of an mpz operator) -> Lean Int term"""
+        n0 = self.skip(n)
+        c = self.vcat(n0)
+        v = self.ex_hoist(n0) if c != "mpzc" else self.ex(n0)
+        if isinstance(v, Const):
+            return "(%d : Int)" % v.v
+        if c == "mpzc":
+            return v
+        if c == "u64":
+            return "(Mpz.ofU64 %s)" % v
+        if c in ("s64", "s32"):
+            return "(BitVec.toInt %s)" % v
+        if c == "int":
+            return "(%s : Int)" % v
+        raise Unsupported(n, "conversion of %s to mpz_class" % qt(n0))
+
+    def rhs_for(self, lhs, rhs):
+        if MPZ_MODE and self.ext:
+            l0 = self.skip(lhs)
+            if l0.get("kind") == "DeclRefExpr":
+                e = self.env.get(l0["referencedDecl"]["id"])
+                if e and e["cat"] == "mpzc":
+                    return self.to_mpz(rhs)
+        return self.ex_hoist(rhs)
+
+    def ex_mpz(self, n):
+        k = n.get("kind")
+        if k == "CXXMemberCallExpr":
+            me = n["inner"][0]
+            if me.get("kind") == "MemberExpr" and me.get("inner") and self.vcat(me["inner"][0]) == "mpzc":
+                obj = self.to_mpz(me["inner"][0])
+                name = me.get("name")
+                args = [a for a in n["inner"][1:] if a.get("kind") != "CXXDefaultArgExpr"]
+                if name == "get_ui" and not args:
+                    return "(Mpz.getUi %s)" % obj
+                if name == "get_si" and not args:
+                    return "(Mpz.getSi %s)" % obj
+                if name == "get_str" and len(args) <= 1:
+                    radix = self.ex(args[0]) if args else Const(10)
+                    return "(Mpz.getStr %s %s)" % (obj, self.as_cat(radix, "int") if isinstance(radix, Const) else "(%s : Int)" % radix)
+                raise Unsupported(n, "mpz_class member " + str(name))
+            return NotImplemented
+        if k == "CXXFunctionalCastExpr" and n.get("castKind") == "ConstructorConversion" and classify(qt(n))[0] == "mpzc":
+            return self.to_mpz(n["inner"][0])        # mpz_class(e)
+        if k in ("CXXConstructExpr", "CXXTemporaryObjectExpr") and classify(qt(n))[0] == "mpzc":
+            args = [a for a in n.get("inner", []) if a.get("kind") != "CXXDefaultArgExpr"]
+            if not args:
+                return "(0 : Int)"
+            if len(args) == 1:
+                return self.to_mpz(args[0])
+            if len(args) == 2 and self.vcat(args[0]) == "str" and classify(qt(args[1]))[0] == "int":
+                # mpz_class(const std::string &, int base): throws std::invalid_argument when the numeral is malformed
+                radix = self.ex(args[1])
+                return self.pcall(n, "Mpz.ofString %s %s" % (self.ex(args[0]), self.as_cat(radix, "int") if isinstance(radix, Const) else "(%s : Int)" % radix))
+            raise Unsupported(n, "mpz_class constructor " + str((n.get("ctorType") or {}).get("qualType")))
+        if k in ("ImplicitCastExpr", "CStyleCastExpr", "CXXStaticCastExpr", "CXXFunctionalCastExpr") and \
+                n.get("castKind") == "IntegralCast" and n.get("inner"):
+            inner = n["inner"][0]
+            s = self.scat(inner)
+            if s:
+                v = self.ex(inner)
+                d = strip_cv(qt(n))
+                if classify(qt(n))[0] == "u64" or d in ("long", "long long"):
+                    return v if s == "s64" else "(BitVec.signExtend 64 %s)" % v
+                if d == "int":
+                    return "(BitVec.setWidth 32 %s)" % v if s == "s64" else v
+                raise Unsupported(n, "integral cast of a signed value to " + qt(n))
+            return NotImplemented
+        return NotImplemented
+
+    def binop_signed(self, n, op, a, b):
+        sa, sb = self.scat(a), self.scat(b)
+        if not sa and not sb:
+            return NotImplemented
+        if op not in ("<", ">", "<=", ">=", "==", "!="):
+            raise Unsupported(n, "arithmetic on a signed fixed-width value")
+
+        def side(x, sx):
+            v = self.ex(x)
+            if isinstance(v, Const):
+                return "(%d : Int)" % v.v
+            if sx:
+                return "(BitVec.toInt %s)" % v
+            raise Unsupported(n, "comparison of a signed value with " + qt(x))
+        lop = {"==": "=", "!=": "≠", "<=": "≤", ">=": "≥"}.get(op, op)
+        return "(decide (%s %s %s))" % (side(a, sa), lop, side(b, sb))
+
+    def op_call_mpz(self, n, op, args):
+        cats = [self.vcat(a) for a in args]
+        if "mpzc" not in cats:
+            return NotImplemented
+        if len(args) == 2:
+            if op == "%":
+                d = self.ex(args[1]) if cats[1] != "mpzc" else None
+                if not (isinstance(d, Const) and d.v != 0):
+                    raise Unsupported(n, "mpz_class %% with a divisor that is not a non-zero constant")
+                return "(Int.tmod %s %s)" % (self.to_mpz(args[0]), self.to_mpz(args[1]))
+            if op in ("+", "-", "*"):
+                return "(%s %s %s)" % (self.to_mpz(args[0]), op, self.to_mpz(args[1]))
+            if op in ("<", ">", "<=", ">=", "==", "!="):
+                lop = {"==": "=", "!=": "≠", "<=": "≤", ">=": "≥"}.get(op, op)
+                return "(decide (%s %s %s))" % (self.to_mpz(args[0]), lop, self.to_mpz(args[1]))
+        if len(args) == 1 and op == "-":
+            return "(- %s)" % self.to_mpz(args[0])
+        if len(args) == 1 and op == "+":
+            return self.to_mpz(args[0])
+        raise Unsupported(n, "mpz_class operator " + op)
+
     # ---- asm
     def asm(self, n):
         tr_asm.translate(self, n)
@@ -2052,6 +2271,8 @@ class FnCtx:
         fty = d["type"]["qualType"]
         rett = fty.split("(")[0].strip()
         rc = classify(rett)[0]
+        if MPZ_MODE and self.ext:
+            rc = self.refine_signed(rc, rett)
         if rc == "other":
             raise Unsupported(d, "return type " + rett)
         info.ret_cat = None if rc == "void" else rc
@@ -2062,6 +2283,8 @@ class FnCtx:
         for p in params:
             t = p["type"]["qualType"]
             cat, ex = classify(t)
+            if MPZ_MODE and self.ext:
+                cat = self.refine_signed(cat, t)
             if cat in ("other", "void"):
                 raise Unsupported(p, "parameter type " + t)
             nm = lean_ident(p.get("name", "arg"))
